@@ -210,9 +210,11 @@ fn judge_archive_with(source: &Value, n_samples: u32, bytes: &[u8], only: &[u64]
 enum Kind { Small, Big, Synth }
 
 fn kind_of(index: u64) -> Kind {
-    match index % 80 {
-        39 => Kind::Big,
-        19 | 59 => Kind::Synth,
+    // hashed, so that the expensive kinds spread evenly over the worker processes (run indices
+    // are dealt round-robin)
+    match (index.wrapping_mul(0x9E37_79B9_7F4A_7C15) >> 33) % 96 {
+        0 => Kind::Big,
+        1 | 2 => Kind::Synth,
         _ => Kind::Small,
     }
 }
@@ -272,7 +274,7 @@ impl Prop for C14 {
         "each evaluation = one crash point: a strict prefix (length n in 0..len-1, ALL n per archive) of an archive produced by a fault-free simulated create, placed on the sim disk and opened by Archive::open (reader) and Decompressor::open under catch_unwind with work counters and an allocation tripwire armed; verdict must be Err. Archives are sampled (seeded small workloads incl. >50 samples), prefixes per archive are enumerated completely, in both the fast and the overflow-checked build. distinct_nontrivial = distinct (archive digest, n) pairs."
     }
     fn runs(&self, tier: Tier) -> u64 {
-        match tier { Tier::Quick => 12_000, Tier::Thorough => 400_000 }
+        match tier { Tier::Quick => 9_000, Tier::Thorough => 300_000 }
     }
     fn profiles(&self) -> Vec<&'static str> { vec!["fast", "checked"] }
     fn run_chunk(&self, ctx: &Ctx, indices: &[u64]) -> Vec<RunReport> {
